@@ -193,6 +193,8 @@ impl<D: DictionaryAccess> DictBuilder<D> {
             DataSource::File(p) => self.lexicon.read_file(p),
             DataSource::Data(d) => self.lexicon.read_bytes(d),
         };
+        // entries read after resolve() may carry unresolved references again
+        self.resolved = false;
         self.reporter.collect_r(result, report)
     }
 
